@@ -20,7 +20,8 @@
 (***************************************************************************)
 EXTENDS Naturals, Sequences, FiniteSets, TLC, Json, IOUtils, SequencesExt
 
-CONSTANTS RecordHist,   \* record environment decisions in hist
+CONSTANTS Logs,         \* model log records (C19)
+          RecordHist,   \* record environment decisions in hist
           MaxInt,       \* maximum number of interrupts (0..2)
           AllowDie      \* worker processes may die
 
@@ -61,13 +62,14 @@ VARIABLES
   \* ---- property-level bookkeeping (history variables; never read by the actions above)
   subCount, viaCache, inrun, runCount, loadCount, fin, done, died, captured, dig, reads,
   intCount, outKeys, outVals,
+  lg,          \* log records: [q |-> log queue, del |-> delivered to the caller's handlers, emit |-> emitted] (sequences of task ids)
   hist
 
 vars == <<ci, cfg, pc, mode, pend, ddeps, pdeps, pdependents, active, ready, cur, removable, exitk,
           rmap, ftt, subq, uc, epend, running, fut, rq, deadS, batch,
           wst, wres, view, cached, store,
           subCount, viaCache, inrun, runCount, loadCount, fin, done, died, captured, dig, reads,
-          intCount, outKeys, outVals, hist>>
+          intCount, outKeys, outVals, lg, hist>>
 
 -----------------------------------------------------------------------------
 Tasks == 1..cfg.n
@@ -130,6 +132,7 @@ Init ==
   /\ captured = {} /\ dig = [t \in Tasks |-> <<>>] /\ reads = {}
   /\ intCount = 0 /\ outKeys = <<>> /\ outVals = <<>>
   /\ hist = <<>>
+  /\ lg = [q |-> <<>>, del |-> <<>>, emit |-> <<>>]
 
 (* value stored before the call for t \in cached0: computed under epoch 0 *)
 RECURSIVE ValE(_, _)
@@ -150,7 +153,7 @@ Plan ==                                               \* TaskState.__init__ (bef
   /\ pc' = "loop"
   /\ UNCHANGED <<ci, cfg, mode, active, ready, cur, removable, exitk, rmap, ftt, subq, uc, epend, running, fut,
                  rq, deadS, batch, wst, wres, view, cached, store, subCount, viaCache, inrun, runCount,
-                 loadCount, fin, done, died, captured, dig, reads, intCount, outKeys, outVals, hist>>
+                 loadCount, fin, done, died, captured, dig, reads, intCount, outKeys, outVals, hist, lg>>
 
 LoopTop ==                                            \* while (pending_tasks or pending_task_count): get_ready_tasks
   /\ pc = "loop"
@@ -162,7 +165,7 @@ LoopTop ==                                            \* while (pending_tasks or
   /\ UNCHANGED <<ci, cfg, mode, pend, ddeps, pdeps, pdependents, active, cur, removable, rmap, ftt, subq, uc,
                  epend, running, fut, rq, deadS, batch, wst, wres, view, cached, store, subCount, viaCache,
                  inrun, runCount, loadCount, fin, done, died, captured, dig, reads, intCount, outKeys,
-                 outVals, hist>>
+                 outVals, hist, lg>>
 
 (* ProcessExecutor._start_processes applied to a pending queue ep and a running set run *)
 StartK(ep, run) == Min2(IF MaxW > Cardinality(run) THEN MaxW - Cardinality(run) ELSE 0, Len(ep))
@@ -206,7 +209,7 @@ Submit ==                                             \* for task in ready_tasks
                   /\ loadCount' = [x \in Tasks |-> IF x \in S /\ uc'[x] THEN loadCount[x] + 1 ELSE loadCount[x]]
                   /\ UNCHANGED subq
   /\ UNCHANGED <<ci, cfg, mode, ddeps, pdeps, pdependents, cur, removable, exitk, rmap, rq, deadS, batch, wres,
-                 cached, store, fin, done, died, captured, dig, intCount, outKeys, outVals, hist>>
+                 cached, store, fin, done, died, captured, dig, intCount, outKeys, outVals, hist, lg>>
 
 (* where the coordinator goes when a wait()'s batch has been processed *)
 AfterWait == IF mode = "normal" THEN "loop" ELSE IF mode = "drain" THEN "drain_check" ELSE "closing"
@@ -221,6 +224,7 @@ Saves(t) == ~uc[t] /\ RunOk(t) /\ Cacheable(t)
 
 WaitSample ==             \* _consume_log_queue; liveness sample at the start of _consume_result_queue
   /\ pc = "wait_sample" /\ ~Serial
+  /\ lg' = [lg EXCEPT !.del = @ \o lg.q, !.q = <<>>]                \* _consume_log_queue
   /\ deadS' = {t \in running : wst[t] \in {"exited", "dead"}}
   /\ pc' = "wait_consume"
   /\ hist' = Rec(<<"S">>)
@@ -238,10 +242,11 @@ WaitConsume ==            \* the consumer thread: take everything that is in the
   /\ hist' = Rec(<<"C">>)
   /\ UNCHANGED <<ci, cfg, mode, pend, ddeps, pdeps, pdependents, active, ready, cur, removable, exitk, rmap, ftt,
                  subq, uc, epend, deadS, batch, wst, wres, view, cached, store, subCount, viaCache, inrun,
-                 runCount, loadCount, fin, done, died, captured, dig, reads, intCount, outKeys, outVals>>
+                 runCount, loadCount, fin, done, died, captured, dig, reads, intCount, outKeys, outVals, lg>>
 
 WaitDead ==               \* fail the futures of dead processes; _start_processes; split_done_futures
   /\ pc = "wait_dead"
+  /\ lg' = [lg EXCEPT !.del = @ \o lg.q, !.q = <<>>]                \* second drain, after executor.wait
   /\ LET deadNow == {t \in deadS : fut[t] = "pending"}
          f1 == [t \in Tasks |-> IF t \in deadNow THEN "died" ELSE fut[t]]
          run1 == running \ deadNow
@@ -261,7 +266,7 @@ WaitDead ==               \* fail the futures of dead processes; _start_processe
   /\ pc' = "iter"
   /\ UNCHANGED <<ci, cfg, mode, pend, ddeps, pdeps, pdependents, active, ready, cur, removable, exitk, rmap, ftt,
                  subq, uc, rq, wres, cached, store, subCount, viaCache, fin, done, died, captured, dig,
-                 intCount, outKeys, outVals, hist>>
+                 intCount, outKeys, outVals, lg, hist>>
 
 Iter ==                   \* for future in done: prune it, skip cancelled, publish the result, yield
   /\ pc = "iter"
@@ -280,7 +285,7 @@ Iter ==                   \* for future in done: prune it, skip cancelled, publi
                   /\ pc' = "body"
   /\ UNCHANGED <<ci, cfg, mode, pend, ddeps, pdeps, pdependents, active, ready, removable, subq, uc, epend,
                  running, fut, rq, deadS, wst, wres, view, cached, store, subCount, viaCache, inrun, runCount,
-                 loadCount, fin, done, died, captured, dig, reads, intCount, outKeys, outVals, hist>>
+                 loadCount, fin, done, died, captured, dig, reads, intCount, outKeys, outVals, hist, lg>>
 
 (* ---- SerialRunner.wait ---- *)
 
@@ -305,10 +310,11 @@ SerPop ==                 \* popleft; the caller is now busy executing this one 
           /\ UNCHANGED exitk
   /\ UNCHANGED <<ci, cfg, mode, pend, ddeps, pdeps, pdependents, active, ready, removable, rmap, ftt, uc, epend,
                  fut, rq, deadS, batch, wres, cached, store, subCount, viaCache, fin, done, died, captured, dig,
-                 intCount, outKeys, outVals, hist>>
+                 intCount, outKeys, outVals, lg, hist, lg>>
 
 SerRun ==                 \* run_or_load_task inline; results_map[task] = result; yield
   /\ pc = "ser_run"
+  /\ lg' = IF Logs /\ ~uc[cur] THEN [lg EXCEPT !.del = Append(@, cur), !.emit = Append(@, cur)] ELSE lg
   /\ LET t == cur  ok == RunOk(t) IN
        /\ fin' = [fin EXCEPT ![t] = IF ok THEN "ok" ELSE "fail"]
        /\ dig' = [dig EXCEPT ![t] = IF ok THEN RunVal(t) ELSE <<>>]
@@ -342,7 +348,7 @@ Body ==                   \* capture; complete_task; handle_failure
           ELSE pc' = "remove" /\ UNCHANGED <<exitk, cur>>
   /\ UNCHANGED <<ci, cfg, mode, pend, ddeps, ready, rmap, ftt, subq, uc, epend, running, fut, rq, deadS, batch,
                  wst, wres, view, cached, store, subCount, viaCache, inrun, runCount, loadCount, fin, died, dig,
-                 reads, intCount, outKeys, outVals, hist>>
+                 reads, intCount, outKeys, outVals, hist, lg>>
 
 RemoveResults ==          \* runner.remove_results(tasks_with_removable_results)
   /\ pc = "remove"
@@ -353,7 +359,7 @@ RemoveResults ==          \* runner.remove_results(tasks_with_removable_results)
   /\ exitk' = IF Serial /\ mode = "final" THEN "KeyboardInterrupt" ELSE exitk
   /\ UNCHANGED <<ci, cfg, mode, pend, ddeps, pdeps, pdependents, active, ready, ftt, subq, uc, epend, running,
                  fut, rq, deadS, batch, wst, wres, view, cached, store, subCount, viaCache, inrun, runCount,
-                 loadCount, fin, done, died, captured, dig, reads, intCount, outKeys, outVals, hist>>
+                 loadCount, fin, done, died, captured, dig, reads, intCount, outKeys, outVals, hist, lg>>
 
 (* ---- interrupts ---- *)
 
@@ -380,7 +386,7 @@ Interrupt ==              \* KeyboardInterrupt delivered to the calling thread a
      ELSE UNCHANGED <<running, inrun, wst>>
   /\ UNCHANGED <<ci, cfg, pend, ddeps, pdeps, pdependents, active, ready, rmap, ftt, subq, uc, epend, fut, rq,
                  deadS, wres, view, cached, store, subCount, viaCache, runCount, loadCount, fin, done, died,
-                 captured, dig, reads, outKeys, outVals>>
+                 captured, dig, reads, outKeys, outVals, lg>>
 
 Cancel ==                 \* runner.cancel(): cancel everything not yet started
   /\ pc = "int1_cancel"
@@ -390,7 +396,7 @@ Cancel ==                 \* runner.cancel(): cancel everything not yet started
   /\ pc' = "drain_check"
   /\ UNCHANGED <<ci, cfg, mode, pend, ddeps, pdeps, pdependents, active, ready, cur, removable, exitk, rmap, ftt,
                  uc, running, rq, deadS, batch, wst, wres, view, cached, store, subCount, viaCache, inrun,
-                 runCount, loadCount, fin, done, died, captured, dig, reads, intCount, outKeys, outVals, hist>>
+                 runCount, loadCount, fin, done, died, captured, dig, reads, intCount, outKeys, outVals, hist, lg>>
 
 DrainCheck ==             \* while runner.pending_task_count() > 0: process_completed_tasks()
   /\ pc = "drain_check"
@@ -399,7 +405,7 @@ DrainCheck ==             \* while runner.pending_task_count() > 0: process_comp
   /\ UNCHANGED <<ci, cfg, mode, pend, ddeps, pdeps, pdependents, active, ready, cur, removable, rmap, ftt, subq,
                  uc, epend, running, fut, rq, deadS, batch, wst, wres, view, cached, store, subCount, viaCache,
                  inrun, runCount, loadCount, fin, done, died, captured, dig, reads, intCount, outKeys, outVals,
-                 hist>>
+                 hist, lg>>
 
 Stop ==                   \* runner.stop(): terminate running processes, cancel their futures
   /\ pc = "int2_stop"
@@ -410,7 +416,7 @@ Stop ==                   \* runner.stop(): terminate running processes, cancel 
   /\ pc' = "wait_sample"
   /\ UNCHANGED <<ci, cfg, mode, pend, ddeps, pdeps, pdependents, active, ready, cur, removable, exitk, rmap, ftt,
                  subq, uc, epend, rq, deadS, batch, wres, view, cached, store, subCount, viaCache, runCount,
-                 loadCount, fin, done, died, captured, dig, reads, intCount, outKeys, outVals, hist>>
+                 loadCount, fin, done, died, captured, dig, reads, intCount, outKeys, outVals, hist, lg>>
 
 Close ==                  \* finally: runner.close(); then return / re-raise; Lab.run_tasks builds the dict
   /\ pc = "closing"
@@ -421,7 +427,7 @@ Close ==                  \* finally: runner.close(); then return / re-raise; La
      ELSE pc' = "raised" /\ UNCHANGED <<outKeys, outVals>>
   /\ UNCHANGED <<ci, cfg, mode, pend, ddeps, pdeps, pdependents, active, ready, cur, removable, exitk, rmap, ftt,
                  subq, uc, epend, running, fut, rq, deadS, batch, wst, wres, view, cached, store, subCount,
-                 viaCache, inrun, runCount, loadCount, fin, done, died, captured, dig, reads, intCount, hist>>
+                 viaCache, inrun, runCount, loadCount, fin, done, died, captured, dig, reads, intCount, hist, lg>>
 
 -----------------------------------------------------------------------------
 (* ---- workers (process backends).  Partial-order restriction: a worker moves *)
@@ -432,6 +438,7 @@ ObsPoint == pc \in {"wait_sample", "wait_consume"} /\ ~Serial
 
 WFinish(t) ==             \* run() or the load ends, the result is saved, the outcome is put on the queue
   /\ t \in Tasks /\ ObsPoint /\ wst[t] = "run" /\ t \in running
+  /\ lg' = IF Logs /\ ~uc[t] THEN [lg EXCEPT !.q = Append(@, t), !.emit = Append(@, t)] ELSE lg  \* records precede the outcome
   /\ LET ok == RunOk(t) IN
        /\ fin' = [fin EXCEPT ![t] = IF ok THEN "ok" ELSE "fail"]
        /\ dig' = [dig EXCEPT ![t] = IF ok THEN RunVal(t) ELSE <<>>]
@@ -453,7 +460,7 @@ WExit(t) ==               \* the process exits after having put its outcome
   /\ UNCHANGED <<ci, cfg, pc, mode, pend, ddeps, pdeps, pdependents, active, ready, cur, removable, exitk, rmap,
                  ftt, subq, uc, epend, running, fut, rq, deadS, batch, wres, view, cached, store, subCount,
                  viaCache, inrun, runCount, loadCount, fin, done, died, captured, dig, reads, intCount, outKeys,
-                 outVals>>
+                 outVals, lg>>
 
 WDie(t) ==                \* the process is killed before it could report anything
   /\ AllowDie /\ t \in Tasks /\ ObsPoint /\ wst[t] = "run" /\ t \in running
@@ -464,7 +471,7 @@ WDie(t) ==                \* the process is killed before it could report anythi
   /\ hist' = Rec(<<"die", t>>)
   /\ UNCHANGED <<ci, cfg, pc, mode, pend, ddeps, pdeps, pdependents, active, ready, cur, removable, exitk, rmap,
                  ftt, subq, uc, epend, running, fut, rq, deadS, batch, wres, view, cached, store, subCount,
-                 viaCache, runCount, loadCount, done, captured, dig, reads, intCount, outKeys, outVals>>
+                 viaCache, runCount, loadCount, done, captured, dig, reads, intCount, outKeys, outVals, lg>>
 
 Worker == \E t \in Tasks : WFinish(t) \/ WExit(t) \/ WDie(t)
 Coordinator == Plan \/ LoopTop \/ Submit \/ WaitSample \/ WaitConsume \/ WaitDead \/ Iter \/ SerPop \/ SerRun
@@ -499,7 +506,7 @@ Abs == INSTANCE LabRunAbs WITH
   cacheVals <- store,
   obsCache <- (pc \in {"returned", "raised"}),
   envok <- {},
-  marks <- {}, emitted <- <<>>, delivered <- <<>>, obsLogs <- FALSE
+  marks <- {}, emitted <- lg.emit, delivered <- lg.del, obsLogs <- (Logs /\ pc \in {"returned", "raised"})
 
 A_C01_Keys == Abs!C01_Keys
 A_C01_Values == Abs!C01_Values
@@ -531,6 +538,7 @@ A_C17_Prompt == Abs!C17_Prompt
 A_C17_Captured == Abs!C17_Captured
 A_C17_EmptyAtReturn == Abs!C17_EmptyAtReturn
 A_C17_OnlyNew == [][Abs!C17_OnlyNew_Step]_vars
+A_C19_ExactlyOnce == Abs!C19_ExactlyOnce
 
 (* ---- implementation-level bookkeeping invariants (not property verdicts) ---- *)
 I_Pdeps == \A t \in Tasks : pdeps[t] = {d \in ddeps[t] : done[d] = "none"}
